@@ -41,6 +41,7 @@ def gen(tier, seed):
 
 
 FLOWMAX = 2
+MAX_STATES = 20000  # the oracle asserts <= 10^4 reachable states on these sizes, so this bound is never reached by a correct search
 
 
 def minimal(sets):
@@ -137,7 +138,7 @@ def _judge(H, net):
         assert nstates <= 10000
         V, E, F = hypergraph_to_pr_inputs(H, flow)
         pr = PathwayRealizability().load_hypergraph_and_flow(V, E, F).build_petri_net_from_flow()
-        ok, cert = pr.is_realizable()
+        ok, cert = pr.is_realizable(max_states=MAX_STATES)
         ncalls += 1
         if ok:
             bad = verify_cert(pre, post, fl, used, cert, ids_in_order)
@@ -166,7 +167,7 @@ def _judge(H, net):
                         fails.append(Fail("konig_unsound", f"flow={fl}: acyclic Konig graph but no ordering exists", "sufficient test", key_extra=str(fl)))
                 else:
                     pr2.is_realizable()
-                ok2, cert2 = pr2.is_realizable()
+                ok2, cert2 = pr2.is_realizable(max_states=MAX_STATES)
                 ncalls += 2
                 if bool(ok2) != want:
                     fails.append(Fail("realizable_after_" + first, f"flow={fl}: {ok2}", f"{want}", key_extra=str(fl)))
